@@ -135,7 +135,7 @@ func mutationSweep(prog *Program, rep *Report, kinds map[string]bool, n int) {
 	res := sweepResult{}
 	var mu sync.Mutex
 	var wg sync.WaitGroup
-	sem := make(chan struct{}, 2)
+	sem := make(chan struct{}, 4)
 	for _, c := range cands[:n] {
 		wg.Add(1)
 		sem <- struct{}{}
@@ -152,7 +152,7 @@ func mutationSweep(prog *Program, rep *Report, kinds map[string]bool, n int) {
 			mut := append([]byte{}, src...)
 			mut[c.cell.off] = c.code
 			name := fmt.Sprintf("%s.%s[%s]:%q->%q", c.cell.rel, c.cell.table, byteName(c.cell.b), c.cell.old, c.code)
-			p2, err := LoadProgram(prog.Repo, "", map[string][]byte{c.cell.file: mut})
+			p2, err := LoadProgramLight(prog.Repo, map[string][]byte{c.cell.file: mut})
 			if err != nil {
 				mu.Lock()
 				res.Errors = append(res.Errors, name+": "+err.Error())
